@@ -118,6 +118,10 @@ pub fn parse_timezone(tz: &str) -> Result<FixedOffset, String> {
 
 fn parse_tz_id_or_name(tz: &str) -> Result<FixedOffset, String> {
     let tz = tz.parse::<Tz>().map_err(|e| e.to_string())?;
+    #[cfg(feature = "verif-hooks")]
+    if let Some(now) = crate::verif::now_override() {
+        return Ok(now.with_timezone(&tz).offset().fix());
+    }
     Ok(Utc::now().with_timezone(&tz).offset().fix())
 }
 
@@ -370,6 +374,8 @@ pub fn adjust_strp_format_and_value(strp_format: &str, original_value: &str) -> 
     let mut adjusted_format = String::from(strp_format);
     let mut adjusted_value = String::from(original_value);
     let now = Utc::now();
+    #[cfg(feature = "verif-hooks")]
+    let now = crate::verif::now_override().unwrap_or(now);
 
     // day is missing
     if !strp_format.contains('d') {
